@@ -256,6 +256,85 @@ def gen_ops(tier, rng, wins, mwins=(), tins=()):
     return ops, lanes
 
 
+PROLOGUE = bytes([0x65, 0x48, 0x8b, 0x0c, 0x25, 0x30, 0x00, 0x00, 0x00, 0x48])   # func_unix.go:11, cross-checked by the c16.fsize stream
+
+
+def consumer_bin():
+    b, err = C.overlay_build('c16-consumers', 'internal/bytecode',
+                             {'zz_verif_c16_test.go': os.path.join(C.HARNESS, 'c16/consumer_probe_test.go')}, C.helper_pkgs())
+    if b is None:
+        raise C.Infra('C16 consumer probe does not build against the current tree:\n' + err[-3000:])
+    return b
+
+
+def gen_consumer_ops(tier, rng, wins):
+    """code blocks made of real instructions (with a bias to long ones), optionally ending in a cut or mutated instruction;
+    c16.scan runs the ParseIns loop over the block, c16.fsize runs GetFuncSize over block + INT3 padding + prologue."""
+    ops = []
+    longs = [w for w in wins if w[0] >= 9] or wins
+    n = 20000 if tier == 'thorough' else 2500
+    for _ in range(n):
+        code = b''
+        for _ in range(1 + rng.below(10)):
+            k, h = (lambda pool: pool[rng.below(len(pool))])(longs if rng.chance(1, 4) else wins)
+            code += bytes.fromhex(h[:2 * k])
+        t = rng.below(5)
+        if t == 0:
+            k, h = wins[rng.below(len(wins))]
+            code += bytes.fromhex(h[:2 * k])[:max(1, rng.below(k + 1))]
+        elif t == 1:
+            k, h = wins[rng.below(len(wins))]
+            code += bytes.fromhex(mutate(rng, k, h))[:k]
+        elif t == 2:
+            code += bytes(rng.choice(PREFIXES) for _ in range(1 + rng.below(3)))
+        ops.append('c16.scan ' + code.hex())
+        img = code + b'\xcc' * (16 + rng.below(17)) + PROLOGUE + bytes(16)
+        ops.append('c16.fsize ' + img.hex())
+    for k, h in longs[:400]:
+        ops.append('c16.scan ' + h[:2 * k] * 2)
+    return list(dict.fromkeys(ops))
+
+
+def run_consumers(tier, rng, wins, out):
+    ops = gen_consumer_ops(tier, rng, wins)
+    if len(ops) < 1000:
+        raise C.Infra('C16 consumer lane is (almost) empty')
+    b = consumer_bin()
+    ops_path = os.path.join(C.BUILD, 'c16c.ops')
+    open(ops_path, 'w').write('\n'.join(ops) + '\n')
+    outp = os.path.join(C.BUILD, 'c16c.impl')
+    rc, log = C.run_probe(b, 'TestVerifC16Consumers', ops_path, outp)
+    if rc != 0:
+        rc, log = C.run_probe(b, 'TestVerifC16Consumers', ops_path, outp)      # once more: a crash that reproduces is real
+    impl = C.read_indexed(outp, len(ops))
+    exe, err = C.build_driver()
+    if exe is None:
+        raise C.Infra('goomdrv does not build: ' + err[-500:])
+    model = run_driver_sharded(exe, ops, 'c16c')
+    nbad = 0
+    for i, op in enumerate(ops):
+        kind, h = op.split()
+        o = impl[i]
+        why = None
+        if o is None:
+            why = 'consumer probe died on this input (rc=%d)' % rc
+        elif not (o.startswith('pos=') or o.startswith('size=')):
+            why = 'consumer loop: ' + o
+        elif int(o.split('=')[1]) > len(h) // 2:
+            why = 'consumer loop ran past the code: ' + o
+        if why and nbad < 2:
+            nbad += 1
+            out.violation(f'{kind}: {why}', {'kind': 'consumer-oracle', 'ops': [op], 'observed': o, 'model': model[i]})
+    diffs = C.diff_streams(ops, impl, model)
+    if diffs and not nbad:
+        i, op, a, m = diffs[0]
+        out.violation(f'model of the consumer loop and the real {"ParseIns loop" if op.startswith("c16.scan") else "GetFuncSize"} disagree',
+                      {'kind': 'consumer-correspondence', 'ops': [op], 'impl': a, 'model': m, 'n_disagreements_shown': len(diffs)},
+                      no_failing_input=True)
+    return {'ops': len(ops), 'scan': sum(1 for o in ops if o.startswith('c16.scan')), 'fsize': sum(1 for o in ops if o.startswith('c16.fsize')),
+            'equal_to_model': len(ops) - len(diffs)}
+
+
 def run_driver_sharded(exe, ops, tag, shards=None):
     """goomdrv does ~25k decodes/s single-threaded; shard the stream."""
     shards = shards or max(1, min(C.NCPU, 12, len(ops) // 20000 + 1))
@@ -461,6 +540,7 @@ def run(tier):
             out.violation('proof obligations of Props/C16.lean no longer check and no failing input was found in the search',
                           {'kind': 'proof', 'broken': proof['failed'], 'searched': len(ops), 'output': proof.get('output', '')[-3000:]},
                           no_failing_input=True)
+    cstats = run_consumers(tier, rng, wins, out)
     # evidence
     errs, lens_, pcw, opnames, lanec = collections.Counter(), collections.Counter(), collections.Counter(), set(), collections.Counter(lanes)
     nontrivial = 0
@@ -496,7 +576,7 @@ def run(tier):
                          'pcrel_width_histogram': {str(k): v for k, v in sorted(pcw.items())}, 'distinct_opcodes_in_stream': len(opnames),
                          'text_walk': estats, 'text_walk_misframed_families': dict(fams), 'text_walk_distinct_opcodes': len(opsd), 'text_walk_instructions_differing_from_reference': text_differ,
                          'reference_differences_on_synthetic_strings_by_class': dict(refdiff), 'reference_differences_unexplained': len(unexplained),
-                         'table': tstats, 'table_coverage': cov_stats, 'gen_modules_changed_this_run': changed, 'proof_wall_s': round(t_proof, 1)},
+                         'table': tstats, 'table_coverage': cov_stats, 'consumer_loops (ParseIns scan, GetFuncSize) real vs model': cstats, 'gen_modules_changed_this_run': changed, 'proof_wall_s': round(t_proof, 1)},
         'explanation': 'Agreement with the reference decoder on toolchain-emitted instructions is measured (differential), not proved.',
         'samples': [{'op': ops[i], 'impl': impl[i], 'model': model[i] if model else None, 'ref': ref[i]} for i in pick if i < len(ops)],
     }
@@ -506,6 +586,21 @@ def run(tier):
 
 def replay(body):
     ops = body.get('ops', [])
+    if ops and ops[0].split()[0] in ('c16.scan', 'c16.fsize'):
+        b = consumer_bin()
+        ops_path = os.path.join(C.BUILD, 'c16c-replay.ops')
+        open(ops_path, 'w').write('\n'.join(ops) + '\n')
+        outp = os.path.join(C.BUILD, 'c16c-replay.impl')
+        C.run_probe(b, 'TestVerifC16Consumers', ops_path, outp)
+        impl = C.read_indexed(outp, len(ops))
+        exe, _ = C.build_driver()
+        model = run_driver_sharded(exe, ops, 'c16c-replay', shards=1)
+        rc = 0
+        for i, op in enumerate(ops):
+            print(f'{op}\n  impl : {impl[i]}\n  model: {model[i]}')
+            if impl[i] != model[i]:
+                rc = 1
+        return rc
     impl, ref, model, _ = execute(ops, tag='c16-replay')
     rc = 0
     for i, op in enumerate(ops):
@@ -513,6 +608,8 @@ def replay(body):
         print(f'{op}\n  impl : {impl[i]}\n  model: {model[i] if model else None}\n  ref  : {ref[i]}\n  oracle: {why or "ok"}')
         if why or (model and impl[i] != model[i]) or (body.get('kind') == 'reference-disagreement' and impl[i] != ref[i]):
             rc = 1
+        if body.get('kind') == 'text-misframed':
+            rc = 1 if impl[i] == body.get('observed_at_report', impl[i]) else rc
     return rc
 
 
